@@ -503,6 +503,15 @@ func ValueErrKind(v ssa.Value, at *ssa.BasicBlock) ErrKind {
 		switch CalleeName(x.Common()) {
 		case "fmt.Errorf", "errors.New":
 			return ErrNonNil
+		case "errors.Join":
+			// non-nil as soon as one joined error is non-nil
+			if len(x.Call.Args) == 1 {
+				for _, e := range SliceLiteralElems(x.Call.Args[0]) {
+					if ValueErrKind(e, at) == ErrNonNil {
+						return ErrNonNil
+					}
+				}
+			}
 		}
 	case *ssa.UnOp:
 		if g, ok := x.X.(*ssa.Global); ok && x.Op == token.MUL && strings.HasPrefix(g.Name(), "Err") {
@@ -578,6 +587,32 @@ func Blocks[T ssa.Instruction](ins []T) []*ssa.BasicBlock {
 	var out []*ssa.BasicBlock
 	for _, i := range ins {
 		out = append(out, i.Block())
+	}
+	return out
+}
+
+// SliceLiteralElems returns the values stored into the backing array of a
+// slice literal / variadic argument list ([]T{a, b}), or nil.
+func SliceLiteralElems(v ssa.Value) []ssa.Value {
+	sl, ok := v.(*ssa.Slice)
+	if !ok {
+		return nil
+	}
+	al, ok := sl.X.(*ssa.Alloc)
+	if !ok {
+		return nil
+	}
+	var out []ssa.Value
+	for _, ref := range *al.Referrers() {
+		ia, ok := ref.(*ssa.IndexAddr)
+		if !ok {
+			continue
+		}
+		for _, r2 := range *ia.Referrers() {
+			if st, ok := r2.(*ssa.Store); ok && st.Addr == ia {
+				out = append(out, st.Val)
+			}
+		}
 	}
 	return out
 }
